@@ -31,6 +31,9 @@ CONFIGS = {
     # race detector: the pure functions called from several threads at once
     "tsan": dict(cxx="g++", flags=["-O1", "-g", "-fno-omit-frame-pointer", "-fsanitize=thread", "-DVERIF_TSAN=1"],
                  link=["-fsanitize=thread"]),
+    # not used by any registered command: line/function coverage of the library under the checks' own workloads
+    # (tools/coverage_gaps.py runs the quick tiers with VERIF_FORCE_CFG=cov and lists what no workload reached)
+    "cov": dict(cxx="g++", flags=["-O0", "-g", "--coverage", "-fprofile-update=atomic"], link=["--coverage"]),
 }
 
 EXEC_SOURCES = ["main.cpp", "shims.cpp", "ops_api.cpp", "ops_codec.cpp", "ops_table.cpp"]
@@ -133,6 +136,7 @@ def common_flags(cfg, incdir):
 
 def ensure(cfg, jobs=16, quiet=False):
     """Return the path of the executor binary for `cfg`, building it if needed."""
+    cfg = os.environ.get("VERIF_FORCE_CFG") or cfg
     th = tree_hash()
     base = os.path.join(CACHE, th, cfg)
     incdir = os.path.join(CACHE, th, "include")
@@ -167,7 +171,8 @@ def ensure(cfg, jobs=16, quiet=False):
             if _run(["ar", "rcs", tmp] + objs, log):
                 raise BuildError("ar failed: " + log[-1][1])
             os.rename(tmp, lib)
-            shutil.rmtree(os.path.join(base, "obj"), ignore_errors=True)
+            if cfg != "cov":   # the coverage notes (.gcno) and counters (.gcda) live next to the objects
+                shutil.rmtree(os.path.join(base, "obj"), ignore_errors=True)
             if not quiet:
                 print(f"[build] library {cfg} done in {time.time()-t0:.0f}s", file=sys.stderr, flush=True)
         eh = exec_hash()
